@@ -623,7 +623,9 @@ func c19ValidArchive(rng *vh.Rand, entries int) []byte {
 		if rng.Chance(1, 12) {
 			name = []string{"..", ".", "", "a/b", "/"}[rng.Intn(5)] // rejected by the archive decoder
 		}
-		b = append(b, c19Str(desync.CaFormatFilename, name)...)
+		if !rng.Chance(1, 15) { // now and then an entry without a name: only the root may be nameless
+			b = append(b, c19Str(desync.CaFormatFilename, name)...)
+		}
 		b = append(b, c19ValidEntry(rng)...)
 		if rng.Chance(1, 3) {
 			b = append(b, c19Str(desync.CaFormatUser, "user")...)
@@ -869,6 +871,29 @@ func c19Generate(a vh.Args, rng *vh.Rand) []*c19Case {
 			f[p] ^= byte(1 << uint(rng.Intn(8)))
 			add(s.decoder, fmt.Sprintf("%s-bitflip@%d", s.name, p), f)
 		}
+	}
+	// entries without a Filename element: fine for the root, refused anywhere else
+	for k := 0; k < 5; k++ {
+		tailOf := func(kind int) []byte {
+			switch kind {
+			case 0:
+				return append(le64(16+3, desync.CaFormatPayload), 1, 2, 3)
+			case 1:
+				return c19Str(desync.CaFormatSymlink, "t")
+			case 2:
+				return le64(32, desync.CaFormatDevice, 1, 2)
+			case 3:
+				return c19Goodbye(0, rng)
+			default:
+				return nil
+			}
+		}
+		root := c19ValidEntry(rng)
+		named := append(c19Str(desync.CaFormatFilename, "a"), append(c19ValidEntry(rng), tailOf(0)...)...)
+		nameless := append(c19ValidEntry(rng), tailOf(k)...)
+		add("archive", fmt.Sprintf("nameless-entry@root-only,kind=%d", k), append(append([]byte{}, root[:0]...), nameless...))
+		add("archive", fmt.Sprintf("nameless-entry@after-root,kind=%d", k), append(append([]byte{}, root...), append(c19Goodbye(0, rng), nameless...)...))
+		add("archive", fmt.Sprintf("nameless-entry@after-file,kind=%d", k), append(append(append([]byte{}, root...), named...), append(nameless, c19Goodbye(0, rng)...)...))
 	}
 	// 3. random bytes, random bytes behind a valid type word
 	nrand := 60
